@@ -56,7 +56,7 @@ def _cms_linear(pid, tier, seed, kinds, n_quick, n_thorough, exh_quick, exh_thor
     def search():
         r2 = Result(pid, tier, seed)
         rng2 = rng_for(seed, pid + "/search")
-        slice_cms.run_slice(r2, rng2, "thorough", {pid}, set(), 4000, core.B(240) if tier == QUICK else 900,
+        slice_cms.run_slice(r2, rng2, "thorough", {pid}, set(), 4000, 120 if tier == QUICK else 900,
                             exhaustive_len=3 if tier == QUICK else 4, label="search")
         res.notes.append(f"search ran {r2.evaluations} extra cases on the real code")
         return r2.oracle_failures
@@ -111,7 +111,7 @@ def check_C02(tier, seed):
 
     def search():
         r2 = Result("C02", tier, seed)
-        slice_hll.run_slice(r2, rng_for(seed, "C02/search"), "thorough", 100000, core.B(200) if tier == QUICK else 600)
+        slice_hll.run_slice(r2, rng_for(seed, "C02/search"), "thorough", 100000, 120 if tier == QUICK else 600)
         res.notes.append(f"search ran {r2.evaluations} extra cases")
         return r2.oracle_failures
 
@@ -197,7 +197,7 @@ def _hh(pid, tier, seed, extra=None, assumptions=None):
 
     def search():
         r2 = Result(pid, tier, seed)
-        slice_hh.run_slice(r2, rng_for(seed, pid + "/search"), "thorough", [pid], 100000, core.B(200) if tier == QUICK else 600, label="search")
+        slice_hh.run_slice(r2, rng_for(seed, pid + "/search"), "thorough", [pid], 100000, 120 if tier == QUICK else 600, label="search")
         res.notes.append(f"search ran {r2.evaluations} extra cases")
         return [f for f in r2.oracle_failures if f.get("pid", pid) == pid]
 
@@ -266,8 +266,8 @@ def check_C05(tier, seed):
     def search():
         r2 = Result(pid, tier, seed)
         g = rng_for(seed, pid + "/search")
-        slice_cms.run_slice(r2, g, "thorough", {pid}, set(), 100000, core.B(100) if tier == QUICK else 400, exhaustive_len=3, label="search")
-        slice_log.log_history(r2, g, "thorough", {pid}, 100000, core.B(100) if tier == QUICK else 400)
+        slice_cms.run_slice(r2, g, "thorough", {pid}, set(), 100000, 40 if tier == QUICK else 400, exhaustive_len=3, label="search")
+        slice_log.log_history(r2, g, "thorough", {pid}, 100000, 40 if tier == QUICK else 400)
         _only(r2, pid)
         return r2.oracle_failures
 
@@ -297,7 +297,7 @@ def check_C06(tier, seed):
         r2 = Result(pid, tier, seed)
         g = rng_for(seed, pid + "/search")
         slice_log.log_step(r2, g, "thorough")
-        slice_log.log_history(r2, g, "thorough", {pid}, 100000, core.B(120) if tier == QUICK else 400)
+        slice_log.log_history(r2, g, "thorough", {pid}, 100000, 60 if tier == QUICK else 400)
         _log_unbiased_mc(r2, g)
         _only(r2, pid)
         return r2.oracle_failures
